@@ -113,6 +113,7 @@ type exec struct {
 
 	oooCompactedThisEpoch bool
 	stopAfterStep         bool
+	mixedOOO              bool
 
 	failed bool
 }
@@ -1177,6 +1178,13 @@ func (e *exec) doCommit(i int) {
 	}
 	if e.m.Epoch > 0 && e.oooCompactedThisEpoch {
 		s.m.OOOTag = tsdbmodel.TagRefReuse
+	}
+	if e.curOOO > 0 {
+		for _, p := range s.m.Pending {
+			if p.S.Kind != tsdbmodel.KFloat || p.S.IsStale() {
+				e.mixedOOO = true // may have put a non-float sample into an out-of-order chunk
+			}
+		}
 	}
 	if len(s.m.ReorderSeries) > 0 {
 		e.stopAfterStep = true // the model cannot follow the implementation's order past this commit
